@@ -353,6 +353,26 @@ def stepArgs (w : World) (op : String) (a : Args) : World × String :=
          (w, s!"inv={inv} same={if same then 1 else 0}"))
     | none, _, _ => (w, "bad-op:no-such-map")
     | _, _, _ => (w, "bad-op:fitsraw")
+  | "dor" =>
+    match (w.files.find? (·.1 == a.getD "f" "f")).map (·.2), a.nat? "ord" with
+    | some fo, some ord =>
+      let px? : Option (Option (List Nat)) := match a.get? "pixels" with
+        | none => some none
+        | some t => (parseNats t).map some
+      let wf? : Option (Option FileObj) := match a.get? "wf" with
+        | none => some none
+        | some n => ((w.files.find? (·.1 == n)).map (·.2)).map some
+      (match px?, wf? with
+       | some px, some wf =>
+         (match apiDegradeOnRead fo ord (a.getD "red" "mean") px wf with
+          | .ok m =>
+            let r := a.getD "r" "tmp"
+            let w := w.put r m
+            ({ w with metas := (r, fo.mdata) :: w.metas.filter (·.1 != r) }, "ok")
+          | .error e => (w, errLine e))
+       | _, _ => (w, "bad-op:dor"))
+    | none, _ => (w, "bad-op:no-such-map")
+    | _, _ => (w, "bad-op:dor")
   | "vals" => withMap w a fun m => (w, showVals ((List.range m.npix).map m.abs))
   | "get" => withMap w a fun m =>
     let pix? : Option (List Nat) :=
